@@ -172,9 +172,11 @@ func (r *Reader) readList(n datamodel.Node, path string) (val.V, error) {
 		}
 		if r.Lookups {
 			for form, get := range map[string]func() (datamodel.Node, error){
-				"LookupByIndex":             func() (datamodel.Node, error) { return n.LookupByIndex(i) },
-				"LookupBySegment(int)":      func() (datamodel.Node, error) { return n.LookupBySegment(datamodel.PathSegmentOfInt(i)) },
-				"LookupBySegment(string)":   func() (datamodel.Node, error) { return n.LookupBySegment(datamodel.PathSegmentOfString(strconv.FormatInt(i, 10))) },
+				"LookupByIndex":        func() (datamodel.Node, error) { return n.LookupByIndex(i) },
+				"LookupBySegment(int)": func() (datamodel.Node, error) { return n.LookupBySegment(datamodel.PathSegmentOfInt(i)) },
+				"LookupBySegment(string)": func() (datamodel.Node, error) {
+					return n.LookupBySegment(datamodel.PathSegmentOfString(strconv.FormatInt(i, 10)))
+				},
 			} {
 				ln, err := get()
 				if err != nil {
@@ -273,9 +275,9 @@ func (r *Reader) readMap(n datamodel.Node, path string) (val.V, error) {
 		}
 		if r.Lookups {
 			forms := map[string]func() (datamodel.Node, error){
-				"LookupByString":        func() (datamodel.Node, error) { return n.LookupByString(ks) },
-				"LookupByNode(key)":     func() (datamodel.Node, error) { return n.LookupByNode(kn) },
-				"LookupBySegment":       func() (datamodel.Node, error) { return n.LookupBySegment(datamodel.PathSegmentOfString(ks)) },
+				"LookupByString":    func() (datamodel.Node, error) { return n.LookupByString(ks) },
+				"LookupByNode(key)": func() (datamodel.Node, error) { return n.LookupByNode(kn) },
+				"LookupBySegment":   func() (datamodel.Node, error) { return n.LookupBySegment(datamodel.PathSegmentOfString(ks)) },
 			}
 			if kn.Kind() == datamodel.Kind_String {
 				forms["LookupByNode(basic string)"] = func() (datamodel.Node, error) { return n.LookupByNode(basicnode.NewString(ks)) }
